@@ -208,6 +208,7 @@ def _phases(S, spec):
         for ev in events:
             g1.apply_event(W, tuple(ev))
         pre = g1.c08_pre(W)
+        del W.log[:]              # the branch log is per cycle
         placement = W.cell.schedule()
         g1.c08_oracle(W, pre, placement, ':phase%d' % (k + 1))
         for n in list(W.marks):
